@@ -5,6 +5,7 @@ from pyvc.contracts import Callback, cls, fn
 for W, short in (("hypercorn.asyncio.worker_context", "asyncio"), ("hypercorn.trio.worker_context", "trio")):
     WC = W + ":WorkerContext"
     cls(WC, fields={"max_requests": "opt int", "requests": "int", "terminate": "Event", "terminated": "Event"},
+        immutable=["max_requests", "terminate", "terminated"],
         inv=[("WorkerContext.inv.requests", "self.requests >= 0", "C18")])
     fn(WC + ".mark_request", params={}, effect="atomic",
        modifies=["self.requests", "self.terminate.flag"],
@@ -18,7 +19,8 @@ for W, short in (("hypercorn.asyncio.worker_context", "asyncio"), ("hypercorn.tr
        ],
        props=("C18", "C16"))
     fn(WC + ".__init__", params={"max_requests": "opt int"},
-       ensures=[("C18.ctx.init", "self.requests == 0 and not self.terminate.flag and not self.terminated.flag", "C18")],
+       ensures=[("C18.ctx.init", "self.requests == 0 and not self.terminate._event.flag and not self.terminated._event.flag", "C18,C16"),
+                ("C18.ctx.budget", "self.max_requests == max_requests", "C18,C16")],
        props=("C18", "C16"))
 
 # ------------------------------------------------------------------------------------------------
@@ -31,6 +33,8 @@ for W, EV in (("hypercorn.asyncio.worker_context", "asyncio:Event"), ("hypercorn
     fn(EW + ".set", params={}, effect="atomic", modifies=["self._event.flag"],
        ensures=[("C16.Event.set", "self._event.flag", "C16")], props=("C16",))
     fn(EW + ".clear", params={}, effect="atomic", modifies=["self._event", "self._event.flag"],
+       # the interface precondition (hypercorn.typing:Event.clear): never-cleared events are not cleared
+       requires=[("C16.Event.clear.pre.not-sticky", "not self._event.sticky")],
        ensures=[("C16.Event.clear", "not self._event.flag", "C16")], props=("C16",))
     fn(EW + ".is_set", params={}, effect="atomic", modifies=[], returns="bool",
        ensures=[("C16.Event.is_set", "result == self._event.flag", "C16")], props=("C16",))
